@@ -606,21 +606,43 @@ def accumulator_budget(F, an, sites):
         # which operand is the accumulator: a multi-definition local with exactly one definition inside the loop,
         # namely the result of this checked addition
         acc = None
+        inbody = set().union(*[b for h, b in loops])
         for side in ("a", "b"):
             l = root_local(f, m[side])
             if l is None:
                 continue
             ds = [d for d in f.defs_of(l) if not f.blocks[d[0]]["cleanup"]]
-            body = min((b for h, b in loops), key=len)
-            inside = [d for d in ds if d[0] in set().union(*[b for h, b in loops])]
-            if len(ds) >= 2 and len(inside) == 1 and feeds_from(f, inside[0], s.bb):
-                acc = (side, l)
+            inside = [d for d in ds if d[0] in inbody]
+            # every in-loop definition of the accumulator is the result of a checked addition to it
+            adds = []
+            for d in inside:
+                src = [ab for ab in inbody if f.blocks[ab]["term"]["k"] == "assert" and f.blocks[ab]["term"]["msg"].get("kind") == "Overflow"
+                       and f.blocks[ab]["term"]["msg"].get("op") == "Add" and feeds_from(f, d, ab)
+                       and l in (root_local(f, f.blocks[ab]["term"]["msg"]["a"]), root_local(f, f.blocks[ab]["term"]["msg"]["b"]))]
+                if len(src) != 1:
+                    adds = None
+                    break
+                adds.append(src[0])
+            if len(ds) >= 2 and inside and adds and s.bb in adds:
+                acc = (side, l, adds)
         if acc is None:
             continue
-        obs = an.add_obs.get((f.path, s.bb))
-        if not obs or obs[0] is None or obs[1] is None:
+        incs = []
+        x0 = None
+        bad = False
+        for ab in acc[2]:
+            obs = an.add_obs.get((f.path, ab))
+            if not obs or obs[0] is None or obs[1] is None:
+                bad = True
+                break
+            tm = f.blocks[ab]["term"]["msg"]
+            a_side = "a" if root_local(f, tm["a"]) == acc[1] else "b"
+            a_iv, b_iv = obs if a_side == "a" else (obs[1], obs[0])
+            incs.append(b_iv[1])
+            x0 = a_iv[0] if x0 is None else min(x0, a_iv[0])
+        if bad:
             continue
-        a_iv, b_iv = obs if acc[0] == "a" else (obs[1], obs[0])
+        a_iv, b_iv = (x0, x0), (0, sum(incs))
         mult = 1
         ok = True
         allloops = f.natural_loops()
@@ -686,30 +708,44 @@ def apply_obligations(F, A, an, sites):
                 continue
             res = [(r,) + R.check(r) for r in ob["requires"]]
             bad = [r for r in res if not r[1]]
+            if bad and ob.get("alt"):
+                # an alternative, equally reviewed, set of dependencies
+                res2 = [(r,) + R.check(r) for r in ob["alt"]]
+                if all(r[1] for r in res2):
+                    res, bad = res2, []
             if bad:
                 s.detail = "reviewed obligation %s no longer applies: dependency %s does not hold (%s) | %s" % (ob["id"], bad[0][0], bad[0][2][:200], s.detail)
                 s.failed_req = bad[0][0]
             else:
                 s.status = "obl"
-                s.detail = "obligation %s: %s [requires %s]" % (ob["id"], ob["reason"], ", ".join(ob["requires"]))
+                s.detail = "obligation %s: %s [requires %s]" % (ob["id"], ob["reason"], ", ".join(r[0] for r in res))
                 used.add(ob["id"])
             break
     return R, used
 
 
-def run(chk, F, A, entries, label, allow_recursion=(), tag="", partitions=True, only_fns=None):
+def sites_in_blocks(F, an, f, blocks):
+    """Sites of function f lying in `blocks`, analysed by a finished run (statuses are those of the last run(); used for
+    the tail of a function whose other sites belong to another property)."""
+    return [s for s in getattr(an, "_last_sites", []) if s.f.path == f.path and s.bb in blocks]
+
+
+def run(chk, F, A, entries, label, allow_recursion=(), tag="", partitions=True, only_fns=None, only_sites=None):
     """Full PF pass for one configuration and entry set; records obligations / violations on chk.
     only_fns: restrict the *reported* sites, loops and recursion to these functions (the analysis context is
     still the whole tree below the entries)."""
     an = ia.Analyzer(F)
     tree = F.reachable(entries)
-    sites = enumerate_sites(F, tree)
+    all_sites = enumerate_sites(F, tree)
+    sites = all_sites
     if only_fns is not None:
         sites = [s for s in sites if s.f.path in only_fns]
-    discharge_with_ia(F, an, entries, sites, tree, partitions)
-    capacity_budget(F, an, sites)
-    accumulator_budget(F, an, sites)
-    R, used = apply_obligations(F, A, an, sites)
+    work = all_sites if only_sites is not None else sites
+    discharge_with_ia(F, an, entries, work, tree, partitions)
+    capacity_budget(F, an, work)
+    accumulator_budget(F, an, work)
+    R, used = apply_obligations(F, A, an, work)
+    an._last_sites = all_sites
     by = {}
     for s in sites:
         by[s.status or "open"] = by.get(s.status or "open", 0) + 1
